@@ -9,17 +9,12 @@ leaves it initialised.  NOT proved (correspondence only, named in DESIGN.md): th
 successful initialisation (defaults read back, remaining memory zero, first/last/count of areas).
 -/
 import Ufw.Lemmas.RegTable
+import Ufw.Lemmas.RegInit
 import Ufw.Props.C03
 import Ufw.Props.C01
 
 namespace Ufw.Props.C04
-open Ufw Ufw.Model.RegTable Ufw.Lemmas.RegTable
-
-/-- items (address, size) are ascending and do not overlap -/
-def Ordered : List (Nat × Nat) → Prop
-  | [] => True
-  | [_] => True
-  | (a, s) :: (b, sb) :: rest => a + s ≤ b ∧ Ordered ((b, sb) :: rest)
+open Ufw Ufw.Model.RegTable Ufw.Lemmas.RegTable Ufw.Lemmas.RegInit
 
 /-- the ordering rule: `none` exactly on ascending, non-overlapping sequences -/
 theorem orderCheck_go_none (i prev prevSize : Nat) (l : List (Nat × Nat)) :
@@ -180,5 +175,497 @@ theorem uninitialised_refuses (cb : Nat → Value → Bool) (t : Table) (h : t.i
 theorem init_no_areas (cb : Nat → Value → Bool) (t0 : Table) (h : t0.areas = []) :
     (register_init cb t0).1 = ⟨.noAreas, 0⟩ := by
   simp [register_init, h]
+
+/-! ### initialisation succeeds exactly on the well-formed descriptions -/
+
+theorem orderCheck_none_iff (l : List (Nat × Nat)) :
+    orderCheck (l.map Prod.fst) (l.map Prod.snd) = none ↔ Ordered l := by
+  simp only [orderCheck, List.zip_map', List.map_id']
+  cases l with
+  | nil => simp [Ordered]
+  | cons x rest =>
+    obtain ⟨a, s⟩ := x
+    exact orderCheck_go_none 1 a s rest
+
+theorem areas_check (t : Table) :
+    orderCheck (t.areas.map (·.base)) (t.areas.map (·.size)) = none ↔ Ordered (areaGeo t) := by
+  have := orderCheck_none_iff (areaGeo t)
+  simpa [areaGeo, List.map_map, Function.comp_def] using this
+
+theorem entries_check (t : Table) :
+    orderCheck (t.entries.map (·.address)) (t.entries.map (·.type.size)) = none ↔ Ordered (entryGeo t) := by
+  have := orderCheck_none_iff (entryGeo t)
+  simpa [entryGeo, List.map_map, Function.comp_def] using this
+
+/-- what `register_init` does to an area before it loads defaults: memory-backed storage is zeroed -/
+def clearArea (a : Area) : Area := if a.memBacked then { a with mem := List.replicate a.mem.length 0 } else a
+
+/-- the table the default-loading loop starts from -/
+def prep (t0 : Table) : Table :=
+  { t0 with areas := t0.areas.map clearArea, initialised := true, duringInit := true }
+
+/-- a register of the description is acceptable: it lies wholly inside one area, and if that area loads
+    defaults the register accepts its own default -/
+def EntryOk (cb : Nat → Value → Bool) (t : Table) (e : Entry) : Prop :=
+  ∃ a ∈ t.areas, Inside a e ∧ (need_to_load_default a = true → DefaultOk cb t.bigEndian e)
+
+/-- the well-formed descriptions of the statement -/
+def WellFormed (cb : Nat → Value → Bool) (t0 : Table) : Prop :=
+  t0.areas ≠ [] ∧ Ordered (areaGeo t0) ∧ Ordered (entryGeo t0) ∧ ∀ e ∈ t0.entries, EntryOk cb t0 e
+
+/-- with at least one area and both ordering rules satisfied, initialisation is the loading loop followed by
+    recording the registers of every area -/
+theorem init_unfold (cb : Nat → Value → Bool) (t0 : Table) (hne : t0.areas ≠ []) (ha : Ordered (areaGeo t0))
+    (he : Ordered (entryGeo t0)) :
+    register_init cb t0 =
+      match register_init.load cb failWith t0.entries.length 0 (prep t0) with
+      | (⟨.success, _⟩, t) => (⟨.success, 0⟩, { t with areas := linkAreas t.entries t.areas 0, duringInit := false })
+      | r => r := by
+  have h0 : ¬ t0.areas.length = 0 := by
+    intro h; exact hne (List.length_eq_zero_iff.mp h)
+  have h1 := (areas_check { t0 with initialised := false, duringInit := true }).mpr ha
+  have h2 := (entries_check { t0 with initialised := false, duringInit := true }).mpr he
+  simp only [register_init, h0, ↓reduceIte, h1, h2]
+  rfl
+
+theorem clear_fields (a : Area) :
+    (clearArea a).base = a.base ∧ (clearArea a).size = a.size ∧ (clearArea a).mem.length = a.mem.length ∧
+    need_to_load_default (clearArea a) = need_to_load_default a ∧ (clearArea a).memBacked = a.memBacked := by
+  unfold clearArea
+  split <;> simp [need_to_load_default]
+
+theorem clear_inside (a : Area) (e : Entry) : Inside (clearArea a) e ↔ Inside a e := by
+  obtain ⟨h1, h2, _⟩ := clear_fields a
+  simp only [Inside, h1, h2]
+
+theorem prep_geo (t0 : Table) : areaGeo (prep t0) = areaGeo t0 := by
+  simp only [areaGeo, prep, List.map_map]
+  apply List.map_congr_left
+  intro a _
+  obtain ⟨h1, h2, _⟩ := clear_fields a
+  simp [h1, h2]
+
+theorem prep_area (t0 : Table) (k : Nat) (a1 : Area) (h : (prep t0).areas[k]? = some a1) :
+    ∃ a, t0.areas[k]? = some a ∧ a1 = clearArea a := by
+  simp only [prep, List.getElem?_map] at h
+  cases ha : t0.areas[k]? with
+  | none => simp [ha] at h
+  | some a => simp only [ha, Option.map_some, Option.some.injEq] at h; exact ⟨a, rfl, h.symm⟩
+
+/-- the storage description the model relies on: every area has `size` atoms of storage -/
+def Sized (t : Table) : Prop := ∀ a ∈ t.areas, a.mem.length = a.size
+
+theorem prep_inv (cb : Nat → Value → Bool) (t0 : Table) (hs : Sized t0) : LoadInv cb (prep t0) 0 0 (prep t0) := by
+  refine ⟨rfl, rfl, rfl, rfl, ?_, rfl, ?_, fun _ _ => rfl, ?_, ?_⟩
+  · intro a ha
+    simp only [prep, List.mem_map] at ha
+    obtain ⟨a0, ha0, rfl⟩ := ha
+    obtain ⟨_, h2, h3, _⟩ := clear_fields a0
+    rw [h3, h2]; exact hs a0 ha0
+  · intro j e hj; omega
+  · intro j e k off a1 hj; omega
+  · intro k a a1 ha ha1 c _
+    rw [ha] at ha1; have := Option.some.inj ha1; subst this; rfl
+
+/-- a register acceptable in the description is acceptable in the table the loop starts from, and conversely -/
+theorem entryOk_prep (cb : Nat → Value → Bool) (t0 : Table) (e : Entry) : EntryOk cb (prep t0) e ↔ EntryOk cb t0 e := by
+  constructor
+  · intro ⟨a1, ha1, hin, hd⟩
+    simp only [prep, List.mem_map] at ha1
+    obtain ⟨a, ha, rfl⟩ := ha1
+    obtain ⟨_, _, _, h4, _⟩ := clear_fields a
+    exact ⟨a, ha, (clear_inside a e).mp hin, fun hn => hd (by rw [h4]; exact hn)⟩
+  · intro ⟨a, ha, hin, hd⟩
+    obtain ⟨_, _, _, h4, _⟩ := clear_fields a
+    exact ⟨clearArea a, by simp only [prep, List.mem_map]; exact ⟨a, ha, rfl⟩, (clear_inside a e).mpr hin,
+      fun hn => hd (by rw [← h4]; exact hn)⟩
+
+/-- the loop's view of an acceptable register: located somewhere, and its default accepted if that area loads -/
+theorem entryOk_located (cb : Nat → Value → Bool) (t1 : Table) (hd : Disjoint t1.areas) (e : Entry) :
+    EntryOk cb t1 e ↔ ∃ k off a1, reg_entry_is_in_memory t1 e = some (k, off) ∧ t1.areas[k]? = some a1 ∧
+      (need_to_load_default a1 = true → DefaultOk cb t1.bigEndian e) := by
+  constructor
+  · intro ⟨a, ha, hin, hdo⟩
+    obtain ⟨k, hk, hka⟩ := List.getElem_of_mem ha
+    have hk' : t1.areas[k]? = some a := by rw [List.getElem?_eq_getElem hk, hka]
+    exact ⟨k, _, a, located_of_inside t1 hd e k a hk' hin, hk', hdo⟩
+  · intro ⟨k, off, a1, hl, ha1, hdo⟩
+    obtain ⟨a, ha, hin, _⟩ := located_some t1 e k off hl
+    rw [ha1] at ha; have := Option.some.inj ha; subst this
+    exact ⟨a1, List.mem_of_getElem? ha1, hin, hdo⟩
+
+/-- **Initialisation succeeds exactly when** the description has at least one area, areas are ascending and
+    non-overlapping, registers are ascending and non-overlapping, every register lies wholly inside one area, and
+    every default that gets loaded is acceptable to its own register. -/
+theorem init_success_iff (cb : Nat → Value → Bool) (t0 : Table) (hs : Sized t0) :
+    (register_init cb t0).1.code = .success ↔ WellFormed cb t0 := by
+  by_cases hne : t0.areas = []
+  · simp [init_no_areas cb t0 hne, WellFormed, hne]
+  by_cases ha' : ¬ Ordered (areaGeo t0)
+  · have ha := ha'
+    have h0 : ¬ t0.areas.length = 0 := fun h => hne (List.length_eq_zero_iff.mp h)
+    have h1 : orderCheck ((t0.areas.map (·.base))) (t0.areas.map (·.size)) ≠ none :=
+      fun h => ha ((areas_check { t0 with initialised := false, duringInit := true }).mp h)
+    constructor
+    · intro h
+      exfalso
+      simp only [register_init, h0, ↓reduceIte] at h
+      split at h
+      · simp at h
+      · simp at h
+      · rename_i hh; exact h1 hh
+    · intro h; exact absurd h.2.1 ha
+  have ha : Ordered (areaGeo t0) := Classical.not_not.mp ha'
+  by_cases he' : ¬ Ordered (entryGeo t0)
+  · have he := he'
+    have h0 : ¬ t0.areas.length = 0 := fun h => hne (List.length_eq_zero_iff.mp h)
+    have h1 := (areas_check { t0 with initialised := false, duringInit := true }).mpr ha
+    have h2 : orderCheck ((t0.entries.map (·.address))) (t0.entries.map (·.type.size)) ≠ none :=
+      fun h => he ((entries_check { t0 with initialised := false, duringInit := true }).mp h)
+    constructor
+    · intro h
+      exfalso
+      simp only [register_init, h0, ↓reduceIte, h1] at h
+      split at h
+      · simp at h
+      · simp at h
+      · rename_i hh; exact h2 hh
+    · intro h; exact absurd h.2.2.1 he
+  have he : Ordered (entryGeo t0) := Classical.not_not.mp he'
+  rw [init_unfold cb t0 hne ha he]
+  have hd : Disjoint (prep t0).areas := ordered_areas_disjoint (prep t0) (by rw [prep_geo]; exact ha)
+  have hspec := load_spec cb (prep t0) he t0.entries.length 0 (prep t0) (prep_inv cb t0 hs) (by simp [prep])
+  rcases hres : register_init.load cb failWith t0.entries.length 0 (prep t0) with ⟨⟨code, pos⟩, t'⟩
+  rw [hres] at hspec
+  rcases hspec with ⟨h1, h2⟩ | ⟨p, tp, _, hp, hf, _, _⟩
+  · simp only [InitRes.mk.injEq] at h1
+    obtain ⟨rfl, rfl⟩ := h1
+    simp only [true_iff]
+    refine ⟨hne, ha, he, ?_⟩
+    intro e hemem
+    obtain ⟨j, hj, hje⟩ := List.getElem_of_mem hemem
+    have hej : (prep t0).entries[j]? = some e := by
+      show t0.entries[j]? = some e
+      rw [List.getElem?_eq_getElem hj, hje]
+    rw [← entryOk_prep, entryOk_located cb (prep t0) hd]
+    obtain ⟨k, off, hl, _⟩ := h2.done j e (by show j < t0.entries.length; exact hj) hej
+    obtain ⟨a1, ha1, _, _⟩ := located_some (prep t0) e k off hl
+    exact ⟨k, off, a1, hl, ha1, fun hn => (h2.defaults j e k off a1 (by show j < t0.entries.length; exact hj) hej hl ha1 hn).1⟩
+  · have hcode : code ≠ .success := by
+      obtain ⟨e1, _, hf⟩ := hf
+      rcases hf with ⟨hc, _⟩ | ⟨hc, _⟩ <;> (simp only at hc; rw [hc]; simp)
+    have hlhs : ¬ ((match ((⟨code, pos⟩ : InitRes), t') with
+        | (⟨.success, _⟩, t) => ((⟨.success, 0⟩ : InitRes), { t with areas := linkAreas t.entries t.areas 0, duringInit := false })
+        | r => r).1.code = .success) := by
+      cases code <;> first | exact absurd rfl hcode | simp
+    simp only [hlhs, false_iff]
+    intro hw
+    obtain ⟨e1, he1, hf⟩ := hf
+    have hmem : e1 ∈ t0.entries := List.mem_of_getElem? (by exact he1)
+    have hok := (entryOk_located cb (prep t0) hd e1).mp ((entryOk_prep cb t0 e1).mpr (hw.2.2.2 e1 hmem))
+    obtain ⟨k, off, a1, hl, ha1, hdo⟩ := hok
+    rcases hf with ⟨_, hnone⟩ | ⟨_, k', off', a1', hl', ha1', hn, hnd⟩
+    · rw [hl] at hnone; simp at hnone
+    · rw [hl] at hl'; simp only [Option.some.injEq, Prod.mk.injEq] at hl'
+      obtain ⟨rfl, rfl⟩ := hl'
+      rw [ha1] at ha1'; have := Option.some.inj ha1'; subst this
+      exact hnd (hdo hn)
+
+/-! ### otherwise it reports the first violated rule with the index of the offending area or register -/
+
+/-- the rule "ascending and non-overlapping" first fails at item `k`: item `k` starts before its predecessor
+    (`ov = false`) or inside it (`ov = true`), and the items in front of `k` are in order -/
+def OrderFailsAt (l : List (Nat × Nat)) (ov : Bool) (k : Nat) : Prop :=
+  1 ≤ k ∧ ∃ p ps c cs, l[k - 1]? = some (p, ps) ∧ l[k]? = some (c, cs) ∧
+    (if ov then p ≤ c ∧ c < p + ps else c < p) ∧ Ordered (l.take k)
+
+theorem orderCheck_some (l : List (Nat × Nat)) (ov : Bool) (k : Nat)
+    (h : orderCheck (l.map Prod.fst) (l.map Prod.snd) = some (ov, k)) : OrderFailsAt l ov k := by
+  simp only [orderCheck, List.zip_map', List.map_id'] at h
+  cases l with
+  | nil => simp at h
+  | cons x rest =>
+    obtain ⟨a, s⟩ := x
+    have h' : orderCheck.go 1 a s rest = some (ov, k) := h
+    obtain ⟨g1, g2, p, ps, c, cs, e1, e2, e3, e4⟩ := orderCheck_go_some 1 a s rest ov k h'
+    refine ⟨g1, p, ps, c, cs, e1, ?_, e3, ?_⟩
+    · have : k = (k - 1) + 1 := by omega
+      rw [this, List.getElem?_cons_succ]; exact e2
+    · have : k = k - 1 + 1 := by omega
+      rw [this]; exact e4
+
+theorem areas_check_some (t : Table) (ov : Bool) (k : Nat)
+    (h : orderCheck (t.areas.map (·.base)) (t.areas.map (·.size)) = some (ov, k)) : OrderFailsAt (areaGeo t) ov k := by
+  apply orderCheck_some
+  simpa [areaGeo, List.map_map, Function.comp_def] using h
+
+theorem entries_check_some (t : Table) (ov : Bool) (k : Nat)
+    (h : orderCheck (t.entries.map (·.address)) (t.entries.map (·.type.size)) = some (ov, k)) :
+    OrderFailsAt (entryGeo t) ov k := by
+  apply orderCheck_some
+  simpa [entryGeo, List.map_map, Function.comp_def] using h
+
+/-- what a failed initialisation reports: the rules are tried in the order of the statement, the first one that
+    is violated is named, with the index of the first item that violates it -/
+def FirstViolation (cb : Nat → Value → Bool) (t0 : Table) (c : InitCode) (p : Nat) : Prop :=
+  (t0.areas = [] ∧ c = .noAreas ∧ p = 0) ∨
+  (t0.areas ≠ [] ∧ ((c = .areaInvalidOrder ∧ OrderFailsAt (areaGeo t0) false p) ∨
+                    (c = .areaAddressOverlap ∧ OrderFailsAt (areaGeo t0) true p))) ∨
+  (t0.areas ≠ [] ∧ Ordered (areaGeo t0) ∧ ((c = .entryInvalidOrder ∧ OrderFailsAt (entryGeo t0) false p) ∨
+                                          (c = .entryAddressOverlap ∧ OrderFailsAt (entryGeo t0) true p))) ∨
+  (t0.areas ≠ [] ∧ Ordered (areaGeo t0) ∧ Ordered (entryGeo t0) ∧
+    (∀ j e, j < p → t0.entries[j]? = some e → EntryOk cb t0 e) ∧
+    ∃ e, t0.entries[p]? = some e ∧
+      ((c = .entryInMemoryHole ∧ ∀ a ∈ t0.areas, ¬ Inside a e) ∨
+       (c = .entryInvalidDefault ∧ ∃ a ∈ t0.areas, Inside a e ∧ need_to_load_default a = true ∧
+          ¬ DefaultOk cb t0.bigEndian e)))
+
+theorem init_first_error (cb : Nat → Value → Bool) (t0 : Table) (hs : Sized t0)
+    (hc : (register_init cb t0).1.code ≠ .success) :
+    FirstViolation cb t0 (register_init cb t0).1.code (register_init cb t0).1.pos := by
+  by_cases hne : t0.areas = []
+  · left; rw [init_no_areas cb t0 hne]; exact ⟨hne, rfl, rfl⟩
+  have h0 : ¬ t0.areas.length = 0 := fun h => hne (List.length_eq_zero_iff.mp h)
+  cases hA : orderCheck (t0.areas.map (·.base)) (t0.areas.map (·.size)) with
+  | some v =>
+    obtain ⟨ov, k⟩ := v
+    have hf := areas_check_some t0 ov k hA
+    right; left
+    refine ⟨hne, ?_⟩
+    cases ov with
+    | false => left; simp only [register_init, h0, ↓reduceIte, hA]; exact ⟨trivial, hf⟩
+    | true => right; simp only [register_init, h0, ↓reduceIte, hA]; exact ⟨trivial, hf⟩
+  | none =>
+  have ha : Ordered (areaGeo t0) := (areas_check t0).mp hA
+  cases hE : orderCheck (t0.entries.map (·.address)) (t0.entries.map (·.type.size)) with
+  | some v =>
+    obtain ⟨ov, k⟩ := v
+    have hf := entries_check_some t0 ov k hE
+    right; right; left
+    refine ⟨hne, ha, ?_⟩
+    cases ov with
+    | false => left; simp only [register_init, h0, ↓reduceIte, hA, hE]; exact ⟨trivial, hf⟩
+    | true => right; simp only [register_init, h0, ↓reduceIte, hA, hE]; exact ⟨trivial, hf⟩
+  | none =>
+  have he : Ordered (entryGeo t0) := (entries_check t0).mp hE
+  right; right; right
+  refine ⟨hne, ha, he, ?_⟩
+  rw [init_unfold cb t0 hne ha he] at hc ⊢
+  have hd : Disjoint (prep t0).areas := ordered_areas_disjoint (prep t0) (by rw [prep_geo]; exact ha)
+  have hspec := load_spec cb (prep t0) he t0.entries.length 0 (prep t0) (prep_inv cb t0 hs) (by simp [prep])
+  rcases hres : register_init.load cb failWith t0.entries.length 0 (prep t0) with ⟨⟨code, pos⟩, t'⟩
+  rw [hres] at hspec hc
+  rcases hspec with ⟨h1, _⟩ | ⟨p, tp, _, hp, hf, hpos, _⟩
+  · simp only [InitRes.mk.injEq] at h1
+    obtain ⟨rfl, rfl⟩ := h1
+    simp at hc
+  · simp only at hpos hf
+    subst hpos
+    have hcode : code ≠ .success := by
+      obtain ⟨e1, _, hf⟩ := hf
+      rcases hf with ⟨hc, _⟩ | ⟨hc, _⟩ <;> (rw [hc]; simp)
+    have hres2 : (match ((⟨code, pos⟩ : InitRes), t') with
+        | (⟨.success, _⟩, t) => ((⟨.success, 0⟩ : InitRes), { t with areas := linkAreas t.entries t.areas 0, duringInit := false })
+        | r => r) = (⟨code, pos⟩, t') := by
+      cases code <;> first | exact absurd rfl hcode | rfl
+    rw [hres2]
+    simp only
+    refine ⟨?_, ?_⟩
+    · intro j e hj hej
+      rw [← entryOk_prep, entryOk_located cb (prep t0) hd]
+      obtain ⟨k, off, hl, _⟩ := hp.done j e hj hej
+      obtain ⟨a1, ha1, _, _⟩ := located_some (prep t0) e k off hl
+      exact ⟨k, off, a1, hl, ha1, fun hn => (hp.defaults j e k off a1 hj hej hl ha1 hn).1⟩
+    · obtain ⟨e1, he1, hf⟩ := hf
+      refine ⟨e1, he1, ?_⟩
+      rcases hf with ⟨hcc, hnone⟩ | ⟨hcc, k, off, a1, hl, ha1, hn, hnd⟩
+      · left
+        refine ⟨hcc, ?_⟩
+        intro a ha hin
+        have := (located_none_iff (prep t0) hd e1).mp hnone (clearArea a)
+          (by simp only [prep, List.mem_map]; exact ⟨a, ha, rfl⟩)
+        exact this ((clear_inside a e1).mpr hin)
+      · right
+        obtain ⟨a, ha, rfl⟩ := prep_area t0 k a1 ha1
+        obtain ⟨a1', ha1', hin, _⟩ := located_some (prep t0) e1 k off hl
+        rw [ha1] at ha1'; have := Option.some.inj ha1'; subst this
+        obtain ⟨_, _, _, h4, _⟩ := clear_fields a
+        exact ⟨hcc, a, List.mem_of_getElem? ha, (clear_inside a e1).mp hin, by rw [← h4]; exact hn, hnd⟩
+
+/-! ### the state a successful initialisation leaves -/
+
+/-- a successful initialisation is the completed loading loop followed by the recording of each area's registers -/
+theorem init_success_state (cb : Nat → Value → Bool) (t0 : Table) (hs : Sized t0)
+    (hok : (register_init cb t0).1.code = .success) :
+    WellFormed cb t0 ∧
+    ∃ t', LoadInv cb (prep t0) t0.entries.length t0.entries.length t' ∧
+      register_init cb t0 = (⟨.success, 0⟩, { t' with areas := linkAreas t'.entries t'.areas 0, duringInit := false }) := by
+  have hw := (init_success_iff cb t0 hs).mp hok
+  obtain ⟨hne, ha, he, _⟩ := id hw
+  refine ⟨hw, ?_⟩
+  rw [init_unfold cb t0 hne ha he] at hok ⊢
+  have hspec := load_spec cb (prep t0) he t0.entries.length 0 (prep t0) (prep_inv cb t0 hs) (by simp [prep])
+  rcases hres : register_init.load cb failWith t0.entries.length 0 (prep t0) with ⟨⟨code, pos⟩, t'⟩
+  rw [hres] at hspec hok
+  rcases hspec with ⟨h1, h2⟩ | ⟨p, tp, _, _, hf, _, _⟩
+  · simp only [InitRes.mk.injEq] at h1
+    obtain ⟨rfl, rfl⟩ := h1
+    exact ⟨t', h2, rfl⟩
+  · exfalso
+    obtain ⟨e1, _, hf⟩ := hf
+    rcases hf with ⟨hc, _⟩ | ⟨hc, _⟩ <;> (simp only at hc; subst hc; simp at hok)
+
+/-- recording the registers of each area changes nothing but the three link fields -/
+theorem linkAreas_same (es : List Entry) : ∀ (areas : List Area) (n k : Nat) (b : Area),
+    (linkAreas es areas n)[k]? = some b →
+    ∃ a, areas[k]? = some a ∧ b = { a with first := b.first, last := b.last, count := b.count } := by
+  intro areas
+  induction areas with
+  | nil => intro n k b h; simp [linkAreas] at h
+  | cons a rest ih =>
+    intro n k b h
+    simp only [linkAreas] at h
+    split at h
+    · split at h
+      · cases k with
+        | zero => simp only [List.getElem?_cons_zero, Option.some.injEq] at h; subst h; exact ⟨a, rfl, rfl⟩
+        | succ k => simp only [List.getElem?_cons_succ] at h ⊢; exact ih _ k b h
+      · cases k with
+        | zero => simp only [List.getElem?_cons_zero, Option.some.injEq] at h; subst h; exact ⟨a, rfl, rfl⟩
+        | succ k => simp only [List.getElem?_cons_succ] at h ⊢; exact ih _ k b h
+    · cases k with
+      | zero => simp only [List.getElem?_cons_zero, Option.some.injEq] at h; subst h; exact ⟨a, rfl, rfl⟩
+      | succ k => simp only [List.getElem?_cons_succ] at h ⊢; exact ih _ k b h
+
+theorem linkAreas_length (es : List Entry) : ∀ (areas : List Area) (n : Nat), (linkAreas es areas n).length = areas.length := by
+  intro areas
+  induction areas with
+  | nil => intro n; simp [linkAreas]
+  | cons a rest ih =>
+    intro n
+    simp only [linkAreas]
+    split
+    · split <;> simp [ih]
+    · simp [ih]
+
+theorem linkAreas_get (es : List Entry) (areas : List Area) (n k : Nat) (a : Area) (h : areas[k]? = some a) :
+    ∃ b, (linkAreas es areas n)[k]? = some b ∧ b = { a with first := b.first, last := b.last, count := b.count } := by
+  have hk := getElem?_lt _ _ _ h
+  have hk' : k < (linkAreas es areas n).length := by rw [linkAreas_length]; exact hk
+  refine ⟨(linkAreas es areas n)[k], List.getElem?_eq_getElem hk', ?_⟩
+  obtain ⟨a', ha', hb⟩ := linkAreas_same es areas n k _ (List.getElem?_eq_getElem hk')
+  rw [h] at ha'; have := Option.some.inj ha'; subst this
+  exact hb
+
+/-- ... so what a register reads as does not depend on it -/
+theorem get_links (t : Table) (las : List Area) (d : Bool)
+    (h : ∀ (k : Nat) (a : Area), t.areas[k]? = some a →
+      ∃ b : Area, las[k]? = some b ∧ b = { a with first := b.first, last := b.last, count := b.count })
+    (hn : ∀ k : Nat, t.areas[k]? = none → las[k]? = none) (j : Nat) :
+    register_get { t with areas := las, duringInit := d } j = register_get t j := by
+  simp only [register_get]
+  split
+  · rfl
+  · cases he : t.entries[j]? with
+    | none => rfl
+    | some e =>
+      simp only
+      cases ha : t.areas[e.area]? with
+      | none => rw [hn _ ha]
+      | some a =>
+        obtain ⟨b, hb, hab⟩ := h _ a ha
+        rw [hb]
+        simp only
+        have : b.read e.offset e.type.size = a.read e.offset e.type.size := by
+          rw [hab]; rfl
+        rw [this]
+
+theorem strip_eq (a b : Area) (h : strip a = strip b) : a = { b with mem := a.mem } := by
+  cases a; cases b
+  simp only [strip, Area.mk.injEq] at h ⊢
+  obtain ⟨h1, h2, h3, h4, h5, h6, h7, h8, _, h10, h11, h12⟩ := h
+  exact ⟨h1, h2, h3, h4, h5, h6, h7, h8, trivial, h10, h11, h12⟩
+
+theorem clear_eq (a : Area) : clearArea a = { a with mem := (clearArea a).mem } := by
+  unfold clearArea; split <;> rfl
+
+theorem clear_getD (a : Area) (c : Nat) :
+    (clearArea a).mem.getD c 0 = if a.memBacked then 0 else a.mem.getD c 0 := by
+  unfold clearArea
+  split
+  · simp only [List.getD_eq_getElem?_getD, List.getElem?_replicate]
+    split <;> rfl
+  · rfl
+
+/-- **After success** the table is usable; every register keeps its description and is linked to the area it lies
+    in; each register of an area that loads defaults reads back its default; every area keeps its description, and
+    every word of its storage that is not covered by a loaded default is zero if the area is memory backed (and
+    untouched otherwise). -/
+theorem init_post (cb : Nat → Value → Bool) (t0 : Table) (hs : Sized t0)
+    (hok : (register_init cb t0).1.code = .success) :
+    (register_init cb t0).2.initialised = true ∧ (register_init cb t0).2.duringInit = false ∧
+    (register_init cb t0).2.bigEndian = t0.bigEndian ∧
+    (register_init cb t0).2.entries.length = t0.entries.length ∧
+    (register_init cb t0).2.areas.length = t0.areas.length ∧
+    (∀ (j : Nat) (e0 : Entry), t0.entries[j]? = some e0 →
+      ∃ (k : Nat) (a0 : Area), t0.areas[k]? = some a0 ∧ Inside a0 e0 ∧
+        (register_init cb t0).2.entries[j]? = some { e0 with area := k, offset := e0.address - a0.base } ∧
+        (need_to_load_default a0 = true → e0.default < 2 ^ e0.type.bits →
+          register_get (register_init cb t0).2 j = (⟨.success, 0⟩, some ⟨e0.type, e0.default⟩))) ∧
+    (∀ (k : Nat) (a0 : Area), t0.areas[k]? = some a0 →
+      ∃ a : Area, (register_init cb t0).2.areas[k]? = some a ∧
+        a = { a0 with mem := a.mem, first := a.first, last := a.last, count := a.count } ∧
+        a.mem.length = a0.mem.length ∧
+        ∀ c, ¬ (need_to_load_default a0 = true ∧ ∃ e0 ∈ t0.entries, Inside a0 e0 ∧ e0.address ≤ a0.base + c ∧
+                  a0.base + c < e0.address + e0.type.size) →
+          a.mem.getD c 0 = if a0.memBacked then 0 else a0.mem.getD c 0) := by
+  obtain ⟨hw, t', hinv, heq⟩ := init_success_state cb t0 hs hok
+  rw [heq]
+  simp only
+  have hlinks : ∀ (k : Nat) (a : Area), t'.areas[k]? = some a →
+      ∃ b : Area, (linkAreas t'.entries t'.areas 0)[k]? = some b ∧ b = { a with first := b.first, last := b.last, count := b.count } :=
+    fun k a h => linkAreas_get t'.entries t'.areas 0 k a h
+  have hnone : ∀ k : Nat, t'.areas[k]? = none → (linkAreas t'.entries t'.areas 0)[k]? = none := by
+    intro k h
+    rw [List.getElem?_eq_none_iff] at h ⊢
+    rw [linkAreas_length]; exact h
+  have hgl : t'.areas.length = t0.areas.length := by
+    have := congrArg List.length hinv.geo
+    simpa [prep] using this
+  refine ⟨hinv.init, trivial, hinv.endian, hinv.len, by rw [linkAreas_length]; exact hgl, ?_, ?_⟩
+  · intro j e0 he0
+    have hj : j < t0.entries.length := getElem?_lt _ _ _ he0
+    obtain ⟨k, off, hl, hent⟩ := hinv.done j e0 hj he0
+    obtain ⟨a1, ha1, hin, hoff⟩ := located_some (prep t0) e0 k off hl
+    obtain ⟨a0, ha0, rfl⟩ := prep_area t0 k a1 ha1
+    obtain ⟨c1, _, _, c4, _⟩ := clear_fields a0
+    refine ⟨k, a0, ha0, (clear_inside a0 e0).mp hin, by rw [hent, hoff, c1], ?_⟩
+    intro hn hb
+    rw [get_links t' _ false hlinks hnone j]
+    exact (hinv.defaults j e0 k off (clearArea a0) hj he0 hl ha1 (by rw [c4]; exact hn)).2 hb
+  · intro k a0 ha0
+    have hp : (prep t0).areas[k]? = some (clearArea a0) := by simp [prep, ha0]
+    obtain ⟨a', ha', hsa⟩ := area_of_geo t' (prep t0) hinv.geo k (clearArea a0) hp
+    obtain ⟨b, hb, hba⟩ := hlinks k a' ha'
+    have e1 := strip_eq a' (clearArea a0) hsa
+    have e2 := clear_eq a0
+    obtain ⟨c1, c2, c3, c4, _⟩ := clear_fields a0
+    have hbm : b.mem = a'.mem := by rw [hba]
+    refine ⟨b, hb, ?_, ?_, ?_⟩
+    · rw [hba, e1, e2]
+    · rw [hbm, hinv.sized a' (List.mem_of_getElem? ha'), hs a0 (List.mem_of_getElem? ha0)]
+      have : a'.size = (clearArea a0).size := (strip_flags a' (clearArea a0) hsa).2.1
+      rw [this, c2]
+    · intro c hc
+      rw [hbm, ← clear_getD]
+      apply hinv.cells k a' (clearArea a0) ha' hp c
+      intro j e1 off hj he1 hl hn hoc
+      apply hc
+      obtain ⟨a1', ha1', hin, hoff⟩ := located_some (prep t0) e1 k off hl
+      rw [hp] at ha1'; have := Option.some.inj ha1'; subst this
+      have hin0 := (clear_inside a0 e1).mp hin
+      refine ⟨by rw [← c4]; exact hn, e1, List.mem_of_getElem? he1, hin0, ?_, ?_⟩
+      · rw [c1] at hoff; have := hin0.1; omega
+      · rw [c1] at hoff; have := hin0.1; omega
 
 end Ufw.Props.C04
